@@ -11,18 +11,20 @@
             | (9) worker: ticker arm | (10) structure probe
    obs      = (code v)   for 1 2 3: code 0 returned v; 1 still blocked on the full request
                          channel, mutex free; 2 blocked on it holding the mutex (harness stops)
-            | (n)        for 4 5
-            | (status)   for 6 7: 0 nothing pending, 1 handled, 2 panicked (harness stops)
+            | (n)        for 4 5; (2 0): the query never returned (blocked on the scheduler's mutex)
+            | (status)   for 6 7: 0 nothing pending, 1 handled, 2 panicked, 5 returned with the
+                         mutex still locked (harness stops)
             | ()         for 8
             | (status id ...)   for 9: ids in the order they appeared on Chan(); status 2 panicked,
-                                4 the ticker arm never returned (harness stops)
+                                4 the ticker arm never returned, 5 it returned with the mutex
+                                still locked (harness stops)
             | (consistent (level slot id deadline period) ...)  for 10
               wheel: buckets in (level, slot) order, each in list order;
               heap: the array in array order with level 0 and slot = the node's index
               field, then the nodes the worker has seen that are outside the array with
               level -1 and slot = their index field, by id *)
 From Coq Require Import ZArith List Bool.
-From FV Require Import Lib.Sx C05.Model C05.Spec C05.HeapArr.
+From FV Require Import Lib.Sx C05.Model C05.Spec C05.HeapArr C05.Vid.
 Import ListNotations.
 Open Scope Z_scope.
 
@@ -48,6 +50,9 @@ Definition stopped (o : op) (b : sx) : bool :=
   match o, b with
   | (Start _ | Every _ | Cancel _), SList [SInt 2; _] => true
   | (HandleAdd | HandleDel), SList [SInt 2] => true
+  | (HandleAdd | HandleDel), SList [SInt 5] => true
+  | (Size | IsSched _), SList [SInt 2; _] => true
+  | Tick, SList (SInt 5 :: _) => true
   | Tick, SList (SInt 2 :: _) => true
   | Tick, SList (SInt 4 :: _) => true
   | _, _ => false
@@ -82,13 +87,15 @@ Definition cmp_model (o : op) (m : out) (b : sx) : verdict :=
       else vjoin (check_that (code =? (if blocked then 1 else 0)) (VMismatch 8))
                  (check_that ((code =? 1) || (v =? (if r then 1 else 0))) (VMismatch 2))
   | ONum n, SList [SInt v] => check_that (n =? v) (VMismatch 3)
+  | ONum _, SList [SInt 2; _] => VOk
+  | OFlag _, SList [SInt 2; _] => VOk
   | OFlag f, SList [SInt v] =>
       match o with
       | IsSched _ => check_that (v =? (if f then 1 else 0)) (VMismatch 4)
-      | _ => if v =? 2 then VOk else check_that (v =? (if f then 1 else 0)) (VMismatch 5)
+      | _ => if (v =? 2) || (v =? 5) then VOk else check_that (v =? (if f then 1 else 0)) (VMismatch 5)
       end
   | ODeliv l, SList (SInt status :: ids) =>
-      if (status =? 2) || (status =? 4) then VOk
+      if (status =? 2) || (status =? 4) || (status =? 5) then VOk
       else match map_opt sx_int ids with
            | Some ids => check_that (zlist_eqb (map fst l) ids) (VMismatch 6)
            | None => VBad
@@ -128,24 +135,27 @@ Fixpoint match_deliv (spec : list deliv) (ids : list Z) (last : option Z) (order
       end
   end.
 
-(* the specification's answer against the observation; [pre] is the state before the op *)
-Definition cmp_spec (pre : sst) (o : op) (z : out) (b : sx) : verdict :=
+(* the specification's answer against the observation; [inuse]: the ids of the timers
+   scheduled before the op *)
+Definition cmp_spec (inuse : list Z) (o : op) (z : out) (b : sx) : verdict :=
   match z, b with
   | OId _ id, SList [SInt code; SInt v] =>
       if code =? 2 then VPropFail 7
-      else check_that ((code =? 1) || negb (mem v (zrefer pre))) (VPropFail 8)
+      else check_that ((code =? 1) || negb (mem v inuse)) (VPropFail 8)
   | OBool _ r, SList [SInt code; SInt v] =>
       if code =? 2 then VPropFail 7
       else check_that ((code =? 1) || (v =? (if r then 1 else 0))) (VPropFail 5)
   | ONum n, SList [SInt v] => check_that (n =? v) (VPropFail 4)
+  | ONum _, SList [SInt 2; _] => VPropFail 7
+  | OFlag _, SList [SInt 2; _] => VPropFail 7
   | OFlag f, SList [SInt v] =>
       match o with
       | IsSched _ => check_that (v =? (if f then 1 else 0)) (VPropFail 4)
-      | _ => check_that (negb (v =? 2)) (VPropFail 6)
+      | _ => if v =? 5 then VPropFail 7 else check_that (negb (v =? 2)) (VPropFail 6)
       end
   | ODeliv l, SList (SInt status :: ids) =>
       if status =? 2 then VPropFail 6
-      else if status =? 4 then VPropFail 7
+      else if (status =? 4) || (status =? 5) then VPropFail 7
       else match map_opt sx_int ids with
            | Some ids => match_deliv l ids None true
            | None => VBad
@@ -156,32 +166,28 @@ Definition cmp_spec (pre : sst) (o : op) (z : out) (b : sx) : verdict :=
   end.
 
 (* [stepf]: the model's step — the wheel machine of Model.v, or the heap machine with its
-   real array (HeapArr.v).  [jump] = Some (k, v): before the op number k (counted from 0)
-   the id counter is set to v (test device of the harness to reach the wrap of the
-   63-bit counter, which 2^63 starts would reach); [setf] sets it in the model state. *)
-Definition zset_next (z : sst) (v : Z) : sst :=
-  mkS (zwheel z) (zclock z) (ztt z) (zrefer z) v (zreq z) (zdels z) (zpending z).
-Definition mset_next (m : st) (v : Z) : st :=
-  mkSt (score m) (sclock m) (srefer m) v (spadd m) (spdel m).
-Definition aset_next (m : ast) (v : Z) : ast :=
-  mkA (aarr m) (aoutside m) (aclock m) (arefer m) v (apadd m) (apdel m).
-
-Fixpoint go {S : Type} (stepf : S -> op -> S * out) (setf : S -> Z -> S) (jump : option (nat * Z))
-            (ops : list op) (obs : list sx) (m : S) (z : sst) (v : verdict) : verdict :=
+   real array (HeapArr.v) — and the specification's step, both under the visible-id layer
+   of Vid.v (nodes are named by keys that are never reused, the ids the application sees
+   are allocated like nextID() does, with wrap and in-use probing).  [jump] = Some (k, v):
+   before the op number k (counted from 0) the id counter is set to v (test device of
+   the harness to reach the wrap of the 63-bit counter, which 2^63 starts would reach). *)
+Fixpoint go {S : Type} (stepf : S -> op -> S * out) (refer_of : S -> list Z) (jump : option (nat * Z))
+            (ops : list op) (obs : list sx) (m : vw S) (z : vw sst) (v : verdict) : verdict :=
   match ops, obs with
   | [], [] => v
   | o :: ops', b :: obs' =>
       let '(m, z, jump) :=
         match jump with
-        | Some (O, nv) => (setf m nv, zset_next z nv, None)
+        | Some (O, nv) => (vset_next m nv, vset_next z nv, None)
         | Some (S k, nv) => (m, z, Some (k, nv))
         | None => (m, z, None)
         end in
       if refused o b then vjoin v VBad else
-      let '(m', mo) := stepf m o in
-      let '(z', zo) := sstep z o in
-      let v' := vjoin v (vjoin (cmp_spec z o zo b) (cmp_model o mo b)) in
-      if stopped o b then v' else go stepf setf jump ops' obs' m' z' v'
+      let '(m', mo) := vstep stepf refer_of m o in
+      let '(z', zo) := vstep sstep zrefer z o in
+      let inuse := v_in_use (v_prune (zrefer (vin z)) (vsched z)) in
+      let v' := vjoin v (vjoin (cmp_spec inuse o zo b) (cmp_model o mo b)) in
+      if stopped o b then v' else go stepf refer_of jump ops' obs' m' z' v'
   | _, _ => vjoin v VBad
   end.
 
@@ -232,16 +238,16 @@ Definition check_case (c : sx) : verdict :=
   | SList [SList [SInt impl; SInt cur0; SInt tt0; SList ops]; SList obs] =>
       match map_opt dec_op ops with
       | Some ops =>
-          if impl =? 0 then go step mset_next None ops obs (init_wheel cur0 tt0) (sinit true tt0) VOk
-          else go astep aset_next None ops obs (ainit tt0) (sinit false tt0) VOk
+          if impl =? 0 then go step srefer None ops obs (vinit (init_wheel cur0 tt0)) (vinit (sinit true tt0)) VOk
+          else go astep arefer None ops obs (vinit (ainit tt0)) (vinit (sinit false tt0)) VOk
       | None => VBad
       end
   | SList [SList [SInt impl; SInt cur0; SInt tt0; SList ops; SInt k; SInt nv]; SList obs] =>
       match map_opt dec_op ops with
       | Some ops =>
           let j := Some (Z.to_nat k, nv) in
-          if impl =? 0 then go step mset_next j ops obs (init_wheel cur0 tt0) (sinit true tt0) VOk
-          else go astep aset_next j ops obs (ainit tt0) (sinit false tt0) VOk
+          if impl =? 0 then go step srefer j ops obs (vinit (init_wheel cur0 tt0)) (vinit (sinit true tt0)) VOk
+          else go astep arefer j ops obs (vinit (ainit tt0)) (vinit (sinit false tt0)) VOk
       | None => VBad
       end
   | _ => VBad
